@@ -4,7 +4,7 @@ import argparse
 import z3
 from pyvc import logic as L
 from pyvc import engine as E
-from pyvc.logic import (Rope, is_sym, land, lor, lnot, implies, iff, eq, ite, SymVal)
+from pyvc.logic import (Rope, is_sym, land, lor, lnot, implies, iff, eq, ite, SymVal, simplify_native)
 from pyvc.engine import Ref, HObj, HList, HDict, SymList, Mock, Undecided, PyRaise
 from pyvc.verify import NS
 from .common import repo, HARD
@@ -464,6 +464,118 @@ class MainWiring:
         else:
             yield "ensures.channel.file_when_given", o[0] == "wallet.export_wallet" and not o[1] and o[2].get("file_path") is f["file"] and set(o[2]) == {"file_path", "data"}
         yield "ensures.order", names.index("wallet.generate") < names.index(o[0]) and names[-1] == o[0]
+
+
+@contract
+class ParseArgsWiring:
+    """C20: parse_args attaches each validator to the option it validates: --account -> account_index (default 0),
+    --interval -> two address_index values (default [0, 20]), -f/--file -> file_, the positional of each
+    sub-command -> its own validator, --mnemonic-len limited to the BIP39 word counts, the sub-command stored
+    under `command`, and it parses exactly the argument vector it was given.  (argparse itself: assumed
+    contract L1 -- ArgumentParser is replaced by a recorder.)"""
+    target = "btc_hd_wallet.__main__.parse_args"
+    props = ("C20",)
+
+    def run(self, ctx, f, args, kwargs, I):
+        from pyvc import models as MM
+        key = argparse.ArgumentParser
+        old = MM.NATIVE_MODELS.get(key)
+
+        def add_parser(c, a, k):
+            return Mock("sub[%s]" % (a[0] if a else k.get("name")))
+
+        def add_subparsers(c, a, k):
+            return Mock("subparsers", results=dict(add_parser=add_parser))
+
+        def m_parser(c, a, k):
+            c.effects.append(("ArgumentParser", tuple(a), dict(k)))
+            return Mock("parser", results=dict(add_subparsers=add_subparsers))
+        m_parser.always = True
+        try:
+            MM.NATIVE_MODELS[key] = m_parser
+            return ctx.call_value(f, args, kwargs)
+        finally:
+            if old is None:
+                MM.NATIVE_MODELS.pop(key, None)
+            else:
+                MM.NATIVE_MODELS[key] = old
+
+    def inputs(self, B):
+        if B.concrete:
+            raise Undecided("parse_args over a recorded ArgumentParser has no concrete replay (covered by the C20 process-level harness)")
+        argv = Leaf("argv")
+        return [argv], {}, NS(argv=argv)
+
+    def post(self, c, I, out):
+        M = main_mod()
+        eff = c.effects
+        yield "ensures.returns", out.returned
+        if not out.returned:
+            return
+        v = out.value
+        last = eff[-1] if eff else None
+        yield "ensures.parses_exactly_the_given_vector_last", last is not None and last[0] == "parser.parse_args" \
+            and (list(last[1]) + [last[2].get("args")])[0] is I.argv and len(last[1]) + len(last[2]) == 1
+        yield "ensures.returns_parser_and_namespace", isinstance(v, tuple) and len(v) == 2 and isinstance(v[0], Mock) and v[0].tag == "parser" \
+            and isinstance(v[1], Mock) and v[1].tag == "parser.parse_args()"
+        yield "ensures.one_parser", [e[0] for e in eff].count("ArgumentParser") == 1
+        table = {}
+        for name, a, k in eff:
+            if name.endswith(".add_argument"):
+                table.setdefault(name[:-len(".add_argument")], []).append((tuple(a), dict(k)))
+        subs = [e for e in eff if e[0] == "parser.add_subparsers"]
+        yield "ensures.subcommand_stored_as_command", len(subs) == 1 and subs[0][2].get("dest") == "command"
+        yield "ensures.five_subcommands", sorted(e[1][0] for e in eff if e[0] == "subparsers.add_parser" and e[1]) == sorted(c_ for c_ in COMMANDS if c_)
+
+        def opt(owner, flag):
+            hits = [(a, k) for a, k in table.get(owner, []) if flag in a]
+            return hits[0] if len(hits) == 1 else None
+
+        def same(x, y):
+            x, y = simplify_native(x), simplify_native(y)
+            return x is y or (type(x) is type(y) and x == y)
+        o = opt("parser", "--account")
+        yield "ensures.account.validator_and_default", o is not None and o[1].get("type") is M.account_index and same(o[1].get("default"), 0) \
+            and "nargs" not in o[1] and "action" not in o[1] and "dest" not in o[1]
+        o = opt("parser", "--interval")
+        okd = False
+        if o is not None:
+            d = o[1].get("default")
+            d = c.deref(d).items if isinstance(d, Ref) else d
+            okd = isinstance(d, (list, tuple)) and [simplify_native(x) for x in d] == [0, 20]
+        yield "ensures.interval.two_validated_values_default_0_20", o is not None and o[1].get("type") is M.address_index and same(o[1].get("nargs"), 2) and okd \
+            and "action" not in o[1] and "dest" not in o[1]
+        o = opt("parser", "--file")
+        yield "ensures.file.validator", o is not None and set(o[0]) == {"-f", "--file"} and o[1].get("type") is M.file_ and "default" not in o[1] \
+            and not o[1].get("required") and "action" not in o[1] and "dest" not in o[1]
+        for flag in ("--testnet", "--paranoia"):
+            o = opt("parser", flag)
+            yield f"ensures.{flag[2:]}.store_true_flag", o is not None and o[0] == (flag,) and o[1].get("action") == "store_true" and "default" not in o[1] and "dest" not in o[1]
+        yield "ensures.global_options_exactly", sorted(a for a, k in table.get("parser", [])) == sorted([("-f", "--file"), ("--testnet",), ("--paranoia",), ("--account",), ("--interval",)])
+        pos = {"from-master-xprv": ("master_xprv", M.extended_key), "from-mnemonic": ("mnemonic", M.mnemonic),
+               "from-bip39-seed": ("seed_hex", M.bip39_seed), "from-entropy-hex": ("entropy_hex", M.entropy_hex)}
+        pw = {"new": True, "from-mnemonic": True, "from-entropy-hex": True, "from-master-xprv": False, "from-bip39-seed": False}
+        for cmd in [c_ for c_ in COMMANDS if c_]:
+            rows = table.get(f"sub[{cmd}]", [])
+            want = []
+            if cmd in pos:
+                want.append((pos[cmd][0],))
+                o = opt(f"sub[{cmd}]", pos[cmd][0])
+                yield f"ensures.{cmd}.positional_validator", o is not None and o[0] == (pos[cmd][0],) and o[1].get("type") is pos[cmd][1] \
+                    and not (set(o[1]) - {"type", "help"})
+            if pw[cmd]:
+                want.append(("--password",))
+                o = opt(f"sub[{cmd}]", "--password")
+                yield f"ensures.{cmd}.password_string_default_empty", o is not None and o[1].get("type") is str and same(o[1].get("default"), "") \
+                    and not o[1].get("required") and "dest" not in o[1] and "action" not in o[1]
+            if cmd == "new":
+                want.append(("--mnemonic-len",))
+                o = opt("sub[new]", "--mnemonic-len")
+                ch = o[1].get("choices") if o else None
+                ch = c.deref(ch).items if isinstance(ch, Ref) else ch
+                yield "ensures.new.mnemonic_len_choices", o is not None and o[1].get("type") is int and same(o[1].get("default"), 24) \
+                    and ch is not None and sorted(simplify_native(x) for x in ch) == [12, 15, 18, 21, 24] and "dest" not in o[1] and "action" not in o[1]
+            yield f"ensures.{cmd}.arguments_exactly", sorted(a for a, k in rows) == sorted(want)
 
 
 CANARIES = []
